@@ -34,10 +34,10 @@ theorem proj_some_own_year (ds : DateSpec) (o : DateOffset) (after : Bool) (hwf 
         (by unfold maxYear; omega) hm1 hm2 hd1 hd2]
       exact ⟨_, rfl, by omega, by omega⟩
 
-/-- the only shifted instance of a bound with a year, over any list of years ≥ 0 containing it -/
+/-- the only shifted instance of a bound with a year, over any list of years containing it -/
 theorem mem_filterMap_proj_year (ds : DateSpec) (o : DateOffset) (after : Bool) (sy : Int) (P : Int)
     (hyr : specYear ds = some sy) (hP : proj ds o after sy = some P) (ys : List Int)
-    (hys : ∀ k ∈ ys, 0 ≤ k) (hmem : sy ∈ ys) (x : Int) :
+    (hpos : 0 < sy) (hmem : sy ∈ ys) (x : Int) :
     x ∈ ys.filterMap (proj ds o after) ↔ x = P := by
   simp only [List.mem_filterMap]
   constructor
@@ -45,7 +45,7 @@ theorem mem_filterMap_proj_year (ds : DateSpec) (o : DateOffset) (after : Bool) 
     by_cases hks : k = sy
     · subst hks; rw [hP] at hx; cases hx; rfl
     · unfold proj at hx
-      rw [dateInstance_other_year ds k sy after hyr hks (hys k hk)] at hx
+      rw [dateInstance_other_year ds k sy after hyr hks hpos] at hx
       cases hx
   · rintro rfl; exact ⟨sy, hmem, hP⟩
 
@@ -66,51 +66,48 @@ theorem mem_candidateYears (s e : DateSpec) (w : Nat) (d k : Int) :
 theorem dateYear_eq (ds : DateSpec) : dateYear ds = specYear ds := by cases ds <;> rfl
 
 /-- the model's projection step `date_on_year` then `offset.apply` on one year -/
-theorem project_ok {ds : DateSpec} {o : DateOffset} (h : BoundOK ds o) (after : Bool) (k : Int)
-    (hk : 0 ≤ k ∧ k ≤ 20000) (hyr : specYear ds = none ∨ specYear ds = some k) :
+theorem project_ok {L : Int} {ds : DateSpec} {o : DateOffset} (h : BoundOK L ds o) (after : Bool) (k : Int)
+    (hk : L ≤ k ∧ k ≤ 175000) (hyr : specYear ds = none ∨ specYear ds = some k) :
     dateOnYear ds k after = .ok (dateInstance ds k after) ∧
       ∀ p, dateInstance ds k after = some p → o.apply p = .ok (shift o p) :=
-  ⟨dateOnYear_eq_instance ds k after h.wf (by unfold minYear; omega) (by unfold maxYear; omega) hyr,
+  ⟨dateOnYear_eq_instance ds k after h.wf (by have := h.lo; unfold minYear; omega) (by unfold maxYear; omega) hyr,
     fun _ hp => apply_inst h hk hp⟩
 
 /-! ### (a1) both bounds carry a year -/
 
 theorem singleInterval_year_year (s : DateSpec) (so : DateOffset) (e : DateSpec) (eo : DateOffset)
-    (hs : BoundOK s so) (he : BoundOK e eo) (sy ey : Int) (hsy : specYear s = some sy)
+    (hws : s.wf = true) (hwso : so.wday.wf = true) (hwe : e.wf = true) (hweo : eo.wday.wf = true)
+    (sy ey : Int) (hsy : specYear s = some sy)
     (hey : specYear e = some ey) (S E : Int) (hS : proj s so true sy = some S)
-    (hE : proj e eo false ey = some E) (hsyr : 0 ≤ sy ∧ sy ≤ 20000) (heyr : 0 ≤ ey ∧ ey ≤ 20000) :
+    (hE : proj e eo false ey = some E) (hsyr : 1900 ≤ sy ∧ sy ≤ 9999) (heyr : 1900 ≤ ey ∧ ey ≤ 9999) :
     singleInterval s so e eo = .ok (some (S, E)) := by
   obtain ⟨s0, hs0, rfl⟩ := proj_eq_some hS
   obtain ⟨e0, he0, rfl⟩ := proj_eq_some hE
-  obtain ⟨a1, a2⟩ := project_ok hs true sy hsyr (Or.inr hsy)
-  obtain ⟨b1, b2⟩ := project_ok he false ey heyr (Or.inr hey)
+  have a1 := dateOnYear_eq_instance s sy true hws (by unfold minYear; omega) (by unfold maxYear; omega) (Or.inr hsy)
+  have b1 := dateOnYear_eq_instance e ey false hwe (by unfold minYear; omega) (by unfold maxYear; omega) (Or.inr hey)
   unfold singleInterval
-  simp only [dateYear_eq, hsy, hey, a1, hs0, a2 s0 hs0, b1, he0, b2 e0 he0, ok_bind, pure_eq_ok]
+  simp only [dateYear_eq, hsy, hey, a1, hs0, apply_eq_shift so hwso s0, b1, he0, apply_eq_shift eo hweo e0,
+    ok_bind, pure_eq_ok]
 
+/-- Class (a1): both bounds carry a year — ANY day offsets (the two instances are the only ones, on either
+side; their shifts saturate in the same way in the code and in the specification). -/
 theorem dated_year_year_eq (s : DateSpec) (so : DateOffset) (e : DateSpec) (eo : DateOffset) (d : Int)
-    (hs : BoundOK s so) (he : BoundOK e eo) (sy ey : Int) (hsy : specYear s = some sy)
-    (hey : specYear e = some ey) (hns : ¬ (s = e ∧ isFixedDate s = true))
-    (h1 : dateStart - 1 ≤ d) (h2 : d < dateEnd) :
+    (hws : s.wf = true) (hwso : so.wday.wf = true) (hwe : e.wf = true) (hweo : eo.wday.wf = true)
+    (sy ey : Int) (hsy : specYear s = some sy)
+    (hey : specYear e = some ey) (hns : ¬ (s = e ∧ isFixedDate s = true)) :
     MonthdayRange.filter (.date s so e eo) d = .ok (datedOk s so e eo d) := by
-  obtain ⟨S, hS, hsy1, hsy2⟩ := proj_some_own_year s so true hs.wf sy hsy
-  obtain ⟨E, hE, hey1, hey2⟩ := proj_some_own_year e eo false he.wf ey hey
-  have hy := year_window h1 h2
-  have hw := yearSpan_bounds so eo hs.small he.small
+  obtain ⟨S, hS, hsy1, hsy2⟩ := proj_some_own_year s so true hws sy hsy
+  obtain ⟨E, hE, hey1, hey2⟩ := proj_some_own_year e eo false hwe ey hey
   rw [filter_of_interval s so e eo d hns _
-    (singleInterval_year_year s so e eo hs he sy ey hsy hey S E hS hE (by omega) (by omega))]
+    (singleInterval_year_year s so e eo hws hwso hwe hweo sy ey hsy hey S E hS hE (by omega) (by omega))]
   congr 1
   rw [Bool.eq_iff_iff, datedOk_range_iff s so e eo d hns]
-  have cpos : ∀ k ∈ candidateYears s e (yearSpan so eo) d, 0 ≤ k := by
-    intro k hk
-    rw [mem_candidateYears, hsy, hey] at hk
-    simp only [Option.some.injEq, exists_eq_left'] at hk
-    omega
   have msy : sy ∈ candidateYears s e (yearSpan so eo) d := by
     rw [mem_candidateYears, hsy]; right; left; exact ⟨sy, rfl, by omega, by omega⟩
   have mey : ey ∈ candidateYears s e (yearSpan so eo) d := by
     rw [mem_candidateYears, hey]; right; right; exact ⟨ey, rfl, by omega, by omega⟩
-  have mS := mem_filterMap_proj_year s so true sy S hsy hS _ cpos msy
-  have mE := mem_filterMap_proj_year e eo false ey E hey hE _ cpos mey
+  have mS := mem_filterMap_proj_year s so true sy S hsy hS _ (by omega) msy
+  have mE := mem_filterMap_proj_year e eo false ey E hey hE _ (by omega) mey
   rw [← specStarts_eq_filterMap] at mS
   rw [← specEnds_eq_filterMap] at mE
   simp only [mS, mE, exists_eq_left, forall_eq, hey, ne_eq, reduceCtorEq, not_false_eq_true, forall_const,
@@ -153,9 +150,11 @@ theorem year_end_iff (E : Int → Int) (S d k lo hi : Int) (mE : StepMono E lo h
     have := hno k hck
     exact ⟨hle, by omega⟩
 
-/-- Class (a2): the start carries a year and the end does not — any offsets within ±100 000 days. -/
-theorem dated_year_yearless_eq (s : DateSpec) (so : DateOffset) (e : DateSpec) (eo : DateOffset) (d : Int)
-    (hs : BoundOK s so) (he : BoundOK e eo) (sy : Int) (hsy : specYear s = some sy)
+/-- Class (a2): the start carries a year and the end does not — any offsets within ±30 000 000 days (`L`: the
+years `sy ± yearSpan` are years the end is known on). -/
+theorem dated_year_yearless_eq {L : Int} (s : DateSpec) (so : DateOffset) (e : DateSpec) (eo : DateOffset) (d : Int)
+    (hs : BoundOK L s so) (he : BoundOK L e eo) (hL : L + yearSpan so eo ≤ 1899)
+    (sy : Int) (hsy : specYear s = some sy)
     (hey : specYear e = none) (h1 : dateStart - 1 ≤ d) (h2 : d < dateEnd) :
     MonthdayRange.filter (.date s so e eo) d = .ok (datedOk s so e eo d) := by
   obtain ⟨S, hS, hsy1, hsy2⟩ := proj_some_own_year s so true hs.wf sy hsy
@@ -165,10 +164,14 @@ theorem dated_year_yearless_eq (s : DateSpec) (so : DateOffset) (e : DateSpec) (
   have hss := hs.small
   have hes := he.small
   -- the shifted start
-  have hs0y : InY sy s0 := dateInstance_year s sy true hs.wf (by omega) (by unfold maxYear; omega) s0 hs0
+  have hs0y : InY sy s0 := inst_inYear hs.wf (hs.yr (k := sy) (by omega)) hs0
   have hsb := inst_shift_bounds hs (y := sy) (by omega) hs0
   rw [hSe] at hsb
-  have hs0r := inYear_range (y := sy) (by omega) hs0y
+  have hs0r : 693595 < s0 ∧ s0 ≤ 3652059 := by
+    have a := yearStart_le (a := 1900) (b := sy) (by omega)
+    have b := yearStart_le (a := sy + 1) (b := 10000) (by omega)
+    rw [yearStart_1900] at a; rw [yearStart_10000] at b
+    unfold InY at hs0y; omega
   -- the centre of the search for the end
   have ey0 := yearBeforeOffset_eq S eo he.small (by omega)
   have iS : InY (year (S - eo.days)) (S - eo.days) := inY_year _
@@ -178,11 +181,11 @@ theorem dated_year_yearless_eq (s : DateSpec) (so : DateOffset) (e : DateSpec) (
   generalize hwg : yearSpan so eo = w at *
   -- the projections of the end
   have mE := projT_stepMono he hey false
-  have posE := fun k (hk : 0 ≤ k ∧ k ≤ 20000) => projT_pos he hey false k hk
+  have posE := fun k (hk : L ≤ k ∧ k ≤ 175000) => projT_pos he hey false k hk
   have rE := pos_range e he.wf
   generalize hEdef : projT e eo false = E at *
-  have pE : ∀ k, 0 ≤ k → k ≤ 20000 → proj e eo false k = some (E k) := by
-    intro k a b; rw [← hEdef]; exact proj_eq_projT e eo false he.wf hey k ⟨a, b⟩
+  have pE : ∀ k, L ≤ k → k ≤ 175000 → proj e eo false k = some (E k) := by
+    intro k a b; rw [← hEdef]; exact proj_eq_projT e eo false he.wf hey k (he.yr ⟨a, b⟩)
   have hlo : E (y0 - 2) < S := by
     rw [← hEdef]; exact projT_lt_of_year he hey false S y0 (y0 - 2) iS (by omega) (by omega)
   have hhi : S ≤ E (y0 + 2) := by
@@ -207,7 +210,7 @@ theorem dated_year_yearless_eq (s : DateSpec) (so : DateOffset) (e : DateSpec) (
         have b := yearStart_le (a := sy + 1 + ((so.days.natAbs + eo.days.natAbs) / 365 + 2 : Nat)) (b := k - 1) hc
         omega
       · omega
-  have cand_range : ∀ j ∈ candidateYears s e w d, 0 ≤ j ∧ j ≤ 20000 := by
+  have cand_range : ∀ j ∈ candidateYears s e w d, L ≤ j ∧ j ≤ 175000 := by
     intro j hj
     rw [mem_candidateYears, hsy, hey] at hj
     simp only [Option.some.injEq, exists_eq_left', reduceCtorEq, false_and, exists_false, or_false] at hj
@@ -233,11 +236,10 @@ theorem dated_year_yearless_eq (s : DateSpec) (so : DateOffset) (e : DateSpec) (
   congr 1
   rw [Bool.eq_iff_iff, datedOk_range_iff s so e eo d hns]
   simp only [Bool.and_eq_true, decide_eq_true_eq]
-  rw [year_end_iff E S d k 0 20000 mE (by omega) hSk hkS (· ∈ candidateYears s e w d)
+  rw [year_end_iff E S d k L 175000 mE (by omega) hSk hkS (· ∈ candidateYears s e w d)
     (cnear k hknear.1 hknear.2) cand_range]
   -- the specification
-  have cpos : ∀ j ∈ candidateYears s e w d, 0 ≤ j := fun j hj => (cand_range j hj).1
-  have mS := mem_filterMap_proj_year s so true sy S hsy hS _ cpos (cnear sy (by omega) (by omega))
+  have mS := mem_filterMap_proj_year s so true sy S hsy hS _ (by omega) (cnear sy (by omega) (by omega))
   have mS' : ∀ x, x ∈ specStarts s so e eo d ↔ x = S := by
     intro x; rw [specStarts_eq_filterMap, hwg]; exact mS x
   simp only [mS', exists_eq_left, hey, ne_eq, not_true_eq_false, false_imp_iff, and_true]
